@@ -248,6 +248,10 @@ def drive(ctx, strategy, check_case, n, label="", seed_offset=0):
 
 
 def run_case(ctx, check_case, params, label=""):
+    # every case starts from the numpy error state forsys establishes at import (a failed lmfit call leaves it
+    # switched off, which must not leak from one generated case into the next)
+    import numpy as _np
+    _np.seterr(all="raise")
     try:
         check_case(params, ctx)
     except Exception as e:
